@@ -890,12 +890,80 @@ pub fn run_c13(opt: &Options) -> i32 {
                         }
                     }
                 }
+                if kind == "stream" {
+                    if let Some(x) = minimise_stream_case(&r.replay) {
+                        return x;
+                    }
+                }
                 (r.replay.clone(), r.summary.clone())
             },
         );
         out.exit_code
     };
     run_parallel_then(cases, opt.jobs, 60, |k, acc, note| c13_item(&sh, k, acc, note), &fin)
+}
+
+/// Trim events from both ends of a failing stream case while the same kind of failure persists
+/// (a contiguous sub-sequence of a legal stream is legal).
+fn minimise_stream_case(replay: &str) -> Option<(String, String)> {
+    let nums = |head: &str| -> Vec<u64> {
+        get_line(replay, head)
+            .map(|l| l.split_whitespace().filter_map(|x| x.parse().ok()).collect())
+            .unwrap_or_default()
+    };
+    let prefix = nums("prefix ");
+    let ev = nums("events ");
+    let scan = nums("scan ").first().copied().unwrap_or(200);
+    let kind = ExtKind::parse(&get_line(replay, "extend ")?)?;
+    let class = |f: &StreamFail| -> u8 {
+        match f {
+            StreamFail::Panic => 0,
+            StreamFail::Overfull { .. } => 1,
+            StreamFail::PrefixChanged { .. } => 2,
+            StreamFail::Loosened { within: true, .. } => 3,
+            StreamFail::Loosened { within: false, .. } => 4,
+        }
+    };
+    let first = check_stream_case(&prefix, &kind, &ev, scan).err()?;
+    let want = class(&first);
+    let fails = |e: &[u64]| -> bool {
+        check_stream_case(&prefix, &kind, e, scan).err().map(|f| class(&f) == want).unwrap_or(false)
+    };
+    let mut best = ev.clone();
+    let mut step = (best.len() / 2).max(1);
+    loop {
+        let mut progress = false;
+        if best.len() > step && fails(&best[..best.len() - step]) {
+            best.truncate(best.len() - step);
+            progress = true;
+        }
+        if best.len() > step && fails(&best[step..]) {
+            best.drain(..step);
+            progress = true;
+        }
+        if !progress {
+            if step == 1 {
+                break;
+            }
+            step /= 2;
+        }
+    }
+    // shift to time zero if that keeps the failure
+    if let Some(f0) = best.first().copied() {
+        let shifted: Vec<u64> = best.iter().map(|x| x - f0).collect();
+        if fails(&shifted) {
+            best = shifted;
+        }
+    }
+    let f = check_stream_case(&prefix, &kind, &best, scan).err()?;
+    let pf: Vec<String> = prefix.iter().map(|x| x.to_string()).collect();
+    let evs: Vec<String> = best.iter().map(|x| x.to_string()).collect();
+    let body = format!("prefix {}\nextend {}\nevents {}\nscan {}\n", pf.join(" "), kind.text(), evs.join(" "), scan);
+    let note = get_line(replay, "note ").unwrap_or_default();
+    Some((
+        replay_text("stream", &body, &format!("{:?}", f), &format!("{} (minimised from {} events)", note, ev.len())),
+        format!("{} of {:?}: {:?}", kind.text(), prefix, f),
+    ))
 }
 
 fn get_line(text: &str, head: &str) -> Option<String> {
